@@ -18,6 +18,7 @@ CONSTANTS
     HttpWriteDbs <- MCHttpWriteDbs
     TestMethods <- MCTestMethods
     TestPatterns <- MCTestPatterns
+    TestSubtrees <- MCTestSubtrees
 INVARIANTS
     TypeOK
     NoCredsNoService
